@@ -38,6 +38,9 @@ CHECKS = {
  "C04": dict(cat="exploration", technique="recorded RPC histories of the real networkService checked with porcupine against a sequential sandbox model (partitioned per pod) + online 'processing' guard + interval ledger over replies + record/pool/live-sandbox agreement at quiescence; race detector",
      text="Each history runs the real daemon service (real k8s layer on a simulated API server, real bolt store behind a latency/fault wrapper, real pool on the simulated cloud) under 8..24 concurrent clients issuing ADD / repeated ADD / new-sandbox ADD / DEL and GET with current, previous and unknown container ids, with cancellation before the call, during GetPod, during the store write and while waiting for the pool, plus store write failures. Requests answered 'processing' must overlap another request of the pod and are removed; the rest of every pod's history must be linearizable against the model; addresses in replies feed the C01 ledger; at quiescence pool owners, records and live sandboxes must agree.",
      note="Runtime ordering assumption: primary ADD/DEL of one sandbox are sequential and a new sandbox starts only after DEL of the previous one was issued; stale replays arrive at any time.", ref="§2 C04"),
+ "C05": dict(cat="fault_enumeration", technique="crash-point enumeration: bolt-file + cloud + acknowledged-reply images at every effect boundary, each restarted through the real restart path and judged; SIGKILL of a real DiskStorage write stream in a child process; differential oracle on the restart-time record filter",
+     text="While daemon histories run, an image is taken before/after every database write, after every reply and after every mutating cloud call (2.9k boundaries, 1.8k restarted in quick). Each image is restarted like builder.setupENIManager (NewDiskStorage on the copy, attached ENIs, filterENINotFound, NewLocal, Manager.Run(records)) behind the real networkService: acknowledged ADDs must keep record, pool ownership and address on a repeated ADD; acknowledged DELs must be gone; fresh pods must never receive an acknowledged address. A child process streaming Put/Delete through DiskStorage is SIGKILLed at PRNG-chosen instants and the reopened store compared with the acknowledged prefix.",
+     note="SIGKILL, not power failure. Images are only taken while no write transaction is open (crash inside bolt's commit is exercised by the kill test only). Reservoir sampling above K images per history; counts of enumerated vs restarted points are in evidence.", ref="§2 C05"),
 }
 NOT_YET = {}
 
